@@ -1,10 +1,49 @@
-(* Properties_C07.v — statements are added as the proofs land (see DESIGN.md). *)
+(* Properties_C07.v — C07: the object marshaller always emits one finite,
+   well-formed token stream.  Statements only; proofs in ObjProof.v.
+   [marshal] (Marshal.v) is the big-step model of obj.Marshaller. *)
 From Coq Require Import List ZArith.
-Require Import Tok GoVal Marshal Unmarshal.
+Require Import Tok TokGrammar GoVal Marshal ObjProof.
 Import ListNotations.
 Open Scope Z_scope.
 
-Example C07_model_runs :
-  marshal_top [] (Atlas [] 0) (GSlice (GNum I8)) (VSlice (Some [VNum 1; VNum (-2)])) =
-  MOk [Tok (ArrOpen 2) None; Tok (Int 1) None; Tok (Int (-2)) None; Tok ArrClose None].
-Proof. vm_compute. reflexivity. Qed.
+(* A successful result is the rendering of exactly one value tree: opens and
+   closes balance, map entries alternate an untagged string key and a value,
+   every declared length is the exact number of entries, and tags sit on the
+   first token of the tagged item only (tags live on nodes of the tree). *)
+Theorem C07_stream_is_one_wellformed_value : forall A f t v ts,
+  marshal A f t v = MOk ts ->
+  exists n, ts = flatten n /\ plain_string_keys n /\ exact_lengths n.
+Proof. exact marshal_wf. Qed.
+Print Assumptions C07_stream_is_one_wellformed_value.
+
+(* The number of tokens is bounded by the size of the value (for atlases whose
+   struct maps address disjoint fields). *)
+Theorem C07_bounded : forall A f t v ts,
+  atlas_routes_ok A = true -> marshal A f t v = MOk ts -> (length ts + 1 <= 3 * gsize v)%nat.
+Proof. exact marshal_bounded_disjoint_routes. Qed.
+Print Assumptions C07_bounded.
+
+(* The marshaller is total: for atlases without self-referential mappings the
+   result is a value or an error from some fuel on, and never changes with more
+   fuel (no endless stream). *)
+Theorem C07_total : forall A t v,
+  no_empty_routes A = true -> wires_not_transforms A = true ->
+  exists f0, forall f, (f0 <= f)%nat -> marshal A f t v <> MFuel.
+Proof. exact marshal_total_nonempty_routes. Qed.
+Theorem C07_result_independent_of_fuel : forall A f f' t v,
+  marshal A f t v <> MFuel -> (f <= f')%nat -> marshal A f' t v = marshal A f t v.
+Proof. exact marshal_fuel_mono. Qed.
+Print Assumptions C07_total.
+
+(* An unrepresentable value produces an error, never a malformed stream: what
+   was emitted before the error is a prefix the token grammar has not rejected. *)
+Theorem C07_error_not_malformed : forall A f t v ts,
+  marshal A f t v = MErr ts ->
+  ts = [] \/ exists c, ctx_run (fun _ => true) [] ts 0 = CRStarved c.
+Proof. exact marshal_err_viable. Qed.
+
+(* the hypotheses are satisfiable, and are what excludes the degenerate atlases *)
+Example C07_hypotheses_not_vacuous :
+  atlas_routes_ok ok_atlas = true /\ no_empty_routes ok_atlas = true /\
+  wires_not_transforms ok_atlas = true /\ atlas_ranked ok_atlas.
+Proof. exact hypotheses_not_vacuous. Qed.
